@@ -142,4 +142,16 @@ theorem patch_self (b : Bytes) (off w : Nat) (h : off + w ≤ b.length) : patch 
   unfold patch; rw [hl]
   exact (take_drop_split b off w).symm
 
+theorem slice_drop (b : Bytes) (k lo hi : Nat) : slice (b.drop k) lo hi = slice b (k + lo) (k + hi) := by
+  unfold slice
+  rw [← List.drop_drop]
+  congr 1
+  rw [List.drop_take, Nat.add_sub_cancel_left]
+
+theorem getBE_drop (b : Bytes) (k lo hi : Nat) : getBE (b.drop k) lo hi = getBE b (k + lo) (k + hi) := by
+  unfold getBE; rw [slice_drop]
+
+theorem getBE_take (b : Bytes) (lo hi n : Nat) (h : hi ≤ n) : getBE (b.take n) lo hi = getBE b lo hi := by
+  unfold getBE; rw [slice_take b lo hi n h]
+
 end MosnVerif.Model.Bytes
